@@ -118,6 +118,40 @@ def check(run):
     run.obligations(FILES)
 
     A = O.A
+    # registration HISTORIES: a (code, vendor) pair that has already been looked up (decoded / constructed while unknown, or
+    # under an earlier definition) must follow the definition registered afterwards
+    for k, (code, vendor) in enumerate([(90000011, 9999999), (90000012, 0), (90000013, 10415)]):
+        flags = 0x80 if vendor else 0
+        wire = O.ref_avp(code, flags, vendor, (1000 + k).to_bytes(4, "big"))
+        hist = {"op": "register-history", "code": code, "vendor": vendor}
+        run.count(1, [("reg-history", code, vendor)])
+        before = A.Avp.from_bytes(wire)
+        try:
+            A.Avp.new(code, vendor, value=5)
+            newed = "ok"
+        except Exception as e:   # noqa
+            newed = O.err_kind(e)
+        if type(before) is not A.Avp or newed == "ok":
+            run.violation("unknown-is-untyped", hist, type(before).__name__, "Avp", what="an unregistered code is not decoded as the untyped AVP")
+        A.register(code, "Verif-History-%d" % k, A.AvpUnsigned32, vendor=vendor or None)
+        after = A.Avp.from_bytes(wire)
+        try:
+            ok = type(after) is A.AvpUnsigned32 and after.value == 1000 + k and A.Avp.new(code, vendor, value=7).as_bytes() == \
+                O.ref_avp(code, flags, vendor, (7).to_bytes(4, "big"))
+            got = f"{type(after).__name__} value {after.value!r}"
+        except Exception as e:   # noqa
+            ok, got = False, O.err_kind(e)
+        if not ok:
+            run.violation("registered-definition-used", hist, got, "AvpUnsigned32 value %d" % (1000 + k),
+                          what="a definition registered at run time is not used for a (code, vendor) pair that was looked up before")
+        A.register(code, "Verif-History-%d" % k, A.AvpOctetString, vendor=vendor or None)
+        again = A.Avp.from_bytes(wire)
+        if type(again) is not A.AvpOctetString or again.value != (1000 + k).to_bytes(4, "big"):
+            run.violation("registered-definition-used", dict(hist, step="re-register"), type(again).__name__, "AvpOctetString",
+                          what="re-registering a (code, vendor) pair with another type is not followed by the decoder")
+        # the history entries are not part of the dictionary tables the model was generated from: take them out again
+        from diameter.message.avp import avp as _avpmod
+        (_avpmod.AVP_VENDOR_DICTIONARY[vendor] if vendor else _avpmod.AVP_DICTIONARY).pop(code, None)
     # run-time registrations (part of the quantifier)
     A.register(90000001, "Verif-Runtime-Text", A.AvpUtf8String, vendor=9999999, mandatory=True)
     A.register(90000002, "Verif-Runtime-Group", A.AvpGrouped, vendor=9999999)
